@@ -30,6 +30,8 @@ fn space_for(tier: Tier) -> Space {
             s.ast("K", 4, 64).ast("Q", 2, 64).ast("CL", 3, 64).ast("G", 5, 64).ast("AN", 3, 64).ast("U", 3, 64).ast("ALT", 3, 64).ast("NEST", 5, 64).ast("CAPQ", 5, 64).ast("BR", 4, 64);
             // one more kernel level, lighter: flags "" and "m", inputs of length <= 2
             s.ast_range("K", 5, 5, 256, 2);
+            // line-anchored terms on inputs of up to six characters (three lines), flags "" and m
+            s.ast_range("ANL", 1, 3, 64, 6);
             s.tok("T", &gen::T_FULL, 3, 64).tok("T0", &gen::T_CORE, 3, 64).tok("TU", &gen::T_UNI, 3, 64).tok("TQ", &gen::T_QUANT, 4, 64).tok("TG", &gen::T_GROUP, 5, 64).tok("TC", &gen::T_CLS, 4, 64).tok("TX", &gen::T_XCLS, 4, 64);
             s.ast("Z", 5, 64).ast("NESTN", 4, 64).ast("OPTG", 5, 64).ast("CAPR", 4, 64);
             s.list("flagstrings", 1 + 18 + 324 + 5832, 128);
@@ -43,6 +45,7 @@ fn space_for(tier: Tier) -> Space {
             s.ast("K", 5, 64).ast("Q", 3, 64).ast("CL", 3, 64).ast("G", 6, 64).ast("AN", 4, 64).ast("U", 4, 64).ast("CI", 3, 64).ast("ALT", 4, 64).ast("NEST", 6, 64).ast("GCM", 4, 64).ast("CAPQ", 6, 64).ast("BR", 5, 64);
             s.tok("T", &gen::T_FULL, 3, 64).tok("T0", &gen::T_CORE, 5, 64).tok("TU", &gen::T_UNI, 4, 64).tok("TQ", &gen::T_QUANT, 5, 64).tok("TG", &gen::T_GROUP, 6, 64).tok("TC", &gen::T_CLS, 5, 64).tok("TX", &gen::T_XCLS, 5, 64);
             s.ast("Z", 6, 64).ast("NESTN", 5, 64).ast("OPTG", 5, 64).ast("CAPR", 4, 64);
+            s.ast_range("ANL", 1, 3, 64, 6);
             s.list("flagstrings", 1 + 18 + 324 + 5832, 128);
             s.list("triggers", crate::checks::c08::triggers().len() as u64, 16);
             s.list("whitespace under x", xws_crash_cases().len() as u64, 16);
